@@ -13,6 +13,7 @@ TRACE  seeded histories of the real helpers on real directories (TracePrivateFil
 import json
 import os
 import threading
+import time
 from concurrent.futures import ThreadPoolExecutor
 
 GEN_INVS = ["NS_DisabledTogether", "NS_NoZeroPort", "NS_Privacy", "NS_PortFile", "NS_CfgOverridesFile", "NS_LocationLength",
@@ -151,7 +152,7 @@ def run(ctx):
                 "and an introducer - each with the Spec's expected outcome, replayed into the real functions (every case is "
                 "non-trivial: its key is the input). MC: all histories within the bounds in constants. TRACE: seeded histories of "
                 "14 helper calls / outside edits per node directory, 14 process-table / lock / file / check / cleanup events per "
-                "pid file, and per gateway 24 events (edit of access.blacklist with mtime forward / equal / back, removal, GET of 22 "
+                "pid file, and per gateway 22 events (edit of access.blacklist with mtime forward / equal / back, removal, GET of 22 "
                 "cap/path combinations plain or t=json, create_node_from_uri + read) on a tree of 8 objects, the first three "
                 "gateways starting with a scripted prefix; one evaluation = one case or one event, non-trivial = distinct "
                 "(input, outcome)")
@@ -170,19 +171,8 @@ def run(ctx):
         "web requests travel through twisted.web's client and server in memory (harness/webgrid.py); a request that goes "
         "quiescent without completing is recorded as status 0",
     ]
-    # ------------------------------------------------------------------ GEN
-    p1 = 12000 + (ctx.seed * 37) % 900
-    consts = {"Tier": '"%s"' % ("quick" if q else "thorough"), "P1": p1, "P2": p1 + 1111, "PAlloc": 34000 + (ctx.seed * 13) % 500}
-    ctx.constants["GEN"] = consts
-    cases, r = ctx.gen("node/GenNodeStartup", cfg(consts, GEN_INVS), timeout=3000)
-    # ------------------------------------------------------------------ MC
-    mcs = [("node/MCPrivateFiles", {"Names": '{"a", "b"}', "Texts": '{"t1", "t2"}', "MaxSteps": 3 if q else 5, "FullPad": "FALSE" if q else "TRUE"},
-            PF_INVS, PF_PROPS),
-           ("node/MCPidFile", {"Nodes": '{"n1", "n2"}' if q else '{"n1", "n2", "n3"}', "Pids": "{1, 2, 3}", "MaxTime": 5 if q else 7}, PID_INVS, PID_PROPS),
-           ("node/MCBlacklistFile", {"MaxLines": 2 if q else 3, "MaxT": 2, "MaxSteps": 3 if q else 5,
-                                     "Reasons": '{"my puppy told me to"}' if q else '{"my puppy told me to", "why"}'}, BF_INVS, ())]
-    # the three model-checking runs and the driver of the real code are independent: run them side by side (each TLC
-    # start costs seconds); findings are reported under a lock
+    # Independent pieces run side by side (every TLC start costs seconds): the history legs of the real code and the three
+    # model-checking runs start at once, the GEN replay as soon as TLC has written the cases.  Findings are reported under a lock.
     lock = threading.Lock()
     orig_report = ctx.report
 
@@ -190,18 +180,38 @@ def run(ctx):
         with lock:
             return orig_report(*a, **kw)
     ctx.report = locked_report
-    plan = ({"priv": {"traces": 30, "events": 14}, "pid": {"traces": 40, "events": 14}, "blacklist": {"traces": 9, "events": 24}} if q else
+    plan = ({"priv": {"traces": 30, "events": 14}, "pid": {"traces": 40, "events": 14}, "blacklist": {"traces": 8, "events": 22}} if q else
             {"priv": {"traces": 400, "events": 20}, "pid": {"traces": 500, "events": 20}, "blacklist": {"traces": 120, "events": 30}})
-    with ThreadPoolExecutor(4) as ex:
-        fimpl = ex.submit(ctx.impl, "harness/nodemisc_driver.py", ["--mode", "all", "--plan", json.dumps(plan)],
-                          input_obj={"cases": cases}, timeout=6000)
+    p1 = 12000 + (ctx.seed * 37) % 900
+    consts = {"Tier": '"%s"' % ("quick" if q else "thorough"), "P1": p1, "P2": p1 + 1111, "PAlloc": 34000 + (ctx.seed * 13) % 500}
+    ctx.constants["GEN"] = consts
+    mcs = [("node/MCPrivateFiles", {"Names": '{"a", "b"}', "Texts": '{"t1", "t2"}', "MaxSteps": 3 if q else 4, "FullPad": "FALSE" if q else "TRUE"},
+            PF_INVS, PF_PROPS),
+           ("node/MCPidFile", {"Nodes": '{"n1", "n2"}' if q else '{"n1", "n2", "n3"}', "Pids": "{1, 2, 3}", "MaxTime": 5 if q else 7}, PID_INVS, PID_PROPS),
+           ("node/MCBlacklistFile", {"MaxLines": 2 if q else 3, "MaxT": 2, "MaxSteps": 3 if q else 4,
+                                     "Reasons": '{"my puppy told me to"}' if q else '{"my puppy told me to", "why"}'}, BF_INVS, ())]
+    legs = (("private-file helpers", "node/TracePrivateFiles", "priv"),
+            ("check_pid_process / cleanup_pidfile", "node/TracePidFile", "pid"),
+            ("gateway with access.blacklist", "node/TraceBlacklistFile", "blacklist"))
+    with ThreadPoolExecutor(8) as ex:
+        ftraces = ex.submit(ctx.impl, "harness/nodemisc_driver.py", ["--mode", "traces", "--plan", json.dumps(plan)], timeout=6000)
+        time.sleep(0.5)              # (ctx.impl numbers its files by the directory's size: let the first call take its number)
         fmc = []
         for mod, k, invs, props in mcs:
             ctx.constants[mod] = k
             fmc.append(ex.submit(ctx.mc, mod, cfg(k, invs, props), name="MC %s" % mod, timeout=6000, workers=2 if q else None))
-        for f in fmc:
+        cases, r = ctx.gen("node/GenNodeStartup", cfg(consts, GEN_INVS), timeout=3000)
+        fgen = ex.submit(ctx.impl, "harness/nodemisc_driver.py", ["--mode", "gen"], input_obj={"cases": cases}, timeout=6000)
+        hist = ftraces.result()
+        for name, module, leg in legs:
+            for tr in hist[leg]:
+                for e in tr["events"]:
+                    core = {k: v for k, v in e.items() if k not in ("note",)}
+                    ctx.count(json.dumps(core, sort_keys=True, ensure_ascii=False))
+        ftr = [ex.submit(ctx.trace, module, hist[leg], key_of=key_of, what_of=what_of(name), batch=200) for name, module, leg in legs]
+        out = fgen.result()
+        for f in fmc + ftr:
             f.result()
-        out = fimpl.result()
     # ------------------------------------------------------------------ GEN verdicts
     stats = {}
     shown = set()
@@ -232,19 +242,7 @@ def run(ctx):
     if opts:
         ctx.notes.append("create_tub_options always sets (not judged, no documentation): %s" % json.dumps(
             {k: v for k, v in opts["options"].items() if k not in ("keepaliveTimeout", "disconnectTimeout")}))
-    # ------------------------------------------------------------------ TRACE
-    legs = (("private-file helpers", "node/TracePrivateFiles", out["priv"]),
-            ("check_pid_process / cleanup_pidfile", "node/TracePidFile", out["pid"]),
-            ("gateway with access.blacklist", "node/TraceBlacklistFile", out["blacklist"]))
-    for name, module, traces in legs:
-        for tr in traces:
-            for e in tr["events"]:
-                core = {k: v for k, v in e.items() if k not in ("note",)}
-                ctx.count(json.dumps(core, sort_keys=True, ensure_ascii=False))
-    with ThreadPoolExecutor(3) as ex:
-        for f in [ex.submit(ctx.trace, module, traces, key_of=key_of, what_of=what_of(name), batch=200) for name, module, traces in legs]:
-            f.result()
-    bl = out["blacklist"]
+    bl = hist["blacklist"]
     codes = {}
     for tr in bl:
         for e in tr["events"]:
